@@ -45,6 +45,10 @@ Definition check_history
   let e := if vm then VM else Interp in
   list_eqb txout_eqb (run_code e h) obs && codes_eqb (final_codes e h [1; 2]) cds.
 
-(* update-validation table: (old shape, new shape, accepted by the real validator) *)
-Definition check_compat (c : Z * Z * bool) : bool :=
-  let '(o, n, obs) := c in Bool.eqb obs (compat o n).
+(* update-validation verdicts: (old source, new source, accepted by the real validator) *)
+Definition check_compat (c : source * source * bool) : bool :=
+  let '(o, n, obs) := c in Bool.eqb obs (src_compat o n).
+
+(* removal verdicts: (deployed source, removal refused by the real removeContract) *)
+Definition check_remove (c : source * bool) : bool :=
+  let '(s, refused) := c in Bool.eqb refused (src_has_enum s).
